@@ -17,8 +17,14 @@ Import ListNotations.
 Open Scope Z_scope.
 
 (* ------------------------------------------------------------------ schemas *)
-(* one entry of Schema.fields; names are canonicalised to numbers by the harness *)
-Record field := { fid : Z; fname : Z; ftype : ptype; freq : bool }.
+(* one entry of Schema.fields; names are canonicalised to numbers by the harness.
+   A field's "type" may be spelled as a plain string or as any dict / list definition
+   (Schema.__post_init__ does not validate those).  ftype is the primitive type the definition
+   RESOLVES to for storage and value admission (_iceberg_type_to_arrow / _value_fits: {"type": t, ...}
+   -> t; anything unrecognised -> string); fspell identifies the spelling (0 = plain string; the harness
+   numbers every other JSON text injectively).  The signature's type_key is the JSON text, i.e. the
+   pair (ftype, fspell): two spellings of the same type do NOT compare equal. *)
+Record field := { fid : Z; fname : Z; ftype : ptype; fspell : Z; freq : bool }.
 (* Schema(schema_id, fields) *)
 Record ischema := { sid : Z; sfields : list field }.
 
@@ -26,13 +32,13 @@ Definition ptype_eqb (a b : ptype) : bool := ptype_tag a =? ptype_tag b.
 Definition atype_eqb (a b : atype) : bool := atype_tag a =? atype_tag b.
 
 (* the components a signature tuple can carry *)
-Inductive sigv := SVId (z : Z) | SVName (z : Z) | SVType (t : ptype) | SVReq (b : bool).
+Inductive sigv := SVId (z : Z) | SVName (z : Z) | SVType (t : ptype) (sp : Z) | SVReq (b : bool).
 
 Definition sigv_eqb (x y : sigv) : bool :=
   match x, y with
   | SVId a, SVId b => a =? b
   | SVName a, SVName b => a =? b
-  | SVType a, SVType b => ptype_eqb a b
+  | SVType a sa, SVType b sb => ptype_eqb a b && (sa =? sb)
   | SVReq a, SVReq b => Bool.eqb a b
   | _, _ => false
   end.
@@ -41,7 +47,7 @@ Definition comp_of (f : field) (c : sigcomp) : sigv :=
   match c with
   | CId => SVId (fid f)
   | CName => SVName (fname f)
-  | CType => SVType (ftype f)
+  | CType => SVType (ftype f) (fspell f)
   | CReq => SVReq (freq f)
   end.
 
@@ -185,8 +191,8 @@ Definition bval (v : pyval) : value := match v with PV w => w | _ => VNull end.
 Definition vrow (r : srow) : row := map (fun kv => (fst kv, bval (snd kv))) r.
 
 (* _compute_column_bounds(table, iceberg_schema): iterates the ARGUMENT schema's fields; skips
-   a field whose name is not a column of the Arrow table or whose type is binary/fixed; stores the
-   bound under the ARGUMENT's field id *)
+   a field whose name is not a column of the Arrow table or whose (resolved) type is binary/fixed;
+   stores the bound under the ARGUMENT's field id *)
 Definition has_col (a : aschema) (n : Z) : bool := existsb (fun x => fst (fst x) =? n) a.
 Definition bound_ids (s : list field) (a : aschema) : list (Z * Z) :=
   ids_of (filter (fun f => has_col a (fname f) && negb (bounds_skipped (ftype f))) s).
